@@ -114,7 +114,7 @@ def gen_case(case):
         upem = r.choice([1000, 1024, 2048])
     tol = r.choice([0.1, 0.1, 0.1, 0.2, 0.5])
     kind = r.choice(["polygon", "polygon", "blob", "ellipse", "ring", "sliver"])
-    size = vb * r.uniform(0.08, 0.16)
+    size = vb * (r.uniform(0.08, 0.16) if r.random() < 0.75 else r.uniform(0.035, 0.08))  # some small details too
     if exact:
         size = max(3, round(size))
     P = proto(r, kind, size, exact)
@@ -269,9 +269,18 @@ def run_case(case):
     res = {"counters": {}, "violations": [], "tags": [fmt, tier, meta["kind"]]}
     c = res["counters"]
     contracts.install()
-    contracts.reset()
     try:
         norm = [inproc.picosvg_normal(s["svg"], False) for s in sources]
+        if case["i"] % 3 == 0:
+            # an earlier build of the same sources in this process, at another tolerance (a long-lived process that
+            # builds several fonts): it must leave nothing behind that the next build can see
+            other = 1.0 if cfg["reuse_tolerance"] < 0.5 else 0.05
+            try:
+                inproc.build(sources, dict(cfg, reuse_tolerance=other), normalised=norm)
+                c["earlier_build_at_other_tolerance"] = 1
+            except Exception:
+                c["earlier_build_failed"] = 1
+        contracts.reset()
         built = inproc.build(sources, cfg, normalised=norm)
     except Exception as e:
         res["violations"].append({"what": f"build raised {type(e).__name__}: {str(e)[:300]}", "trace": traceback.format_exc()[-1200:], "config": cfg})
